@@ -231,14 +231,19 @@ def worker(k, jobs, out_path, jobs_per_cargo):
             if rc != 0:
                 status = 'nocompile'
             else:
+                weak = []
                 for prop in props_for(mu['file']):
                     rc, out = sh([os.path.join(ROOT, 'check'), prop, '--tier', 'quick'], cwd=ROOT, env=env, timeout=1200)
                     if rc != 0 and 'VIOLATION property=%s' % prop in out:
-                        v = [x for x in out.split('\n') if x.startswith('VIOLATION')][0]
-                        status = 'detected:%s%s' % (prop, ':obligation-only' if 'no-failing-input-found' in v else '')
-                        break
+                        vs = [x for x in out.split('\n') if x.startswith('VIOLATION')]
+                        if any('no-failing-input-found' not in v for v in vs):
+                            status = 'detected:%s' % prop            # a concrete failing input
+                            break
+                        weak.append(prop)                           # only an obligation that no longer checks: look further
                     if rc not in (0, 1):
                         detail += 'check %s exit %s: %s\n' % (prop, rc, out[-400:])
+                if status is None and weak:
+                    status = 'detected:%s:obligation-only' % ','.join(weak)
                 if status is None:
                     rc, out = sh(['cargo', 'test', '--workspace', '--offline', '--no-fail-fast'], cwd=repo, env=tenv, timeout=1800)
                     status = 'SURVIVOR' if rc == 0 else 'killed-by-tests'
